@@ -107,6 +107,9 @@ structure RunRec where
   /-- the failure-free run -/
   clean : String
   cexec : String
+  /-- the workload repeats every failed call itself (Assembler level) and the faults are a fixed finite set: the run must
+  then complete and produce exactly the failure-free bytes -/
+  strictRetry : Bool := false
   deriving Repr, Inhabited
 
 /-- "completes correctly": the very bytes of the failure-free run, or (only where the workload is executed) other bytes
@@ -123,6 +126,8 @@ def runGood (r : RunRec) : Bool :=
   r.leak == 0 &&
   -- reusable: the same objects and fresh objects reproduce the failure-free output
   sameCode r.reuse r.rexec r.clean r.cexec && r.reuse.contains ':' &&
-  r.fresh == r.clean && r.fexec == r.cexec
+  r.fresh == r.clean && r.fexec == r.cexec &&
+  -- repeating each failed call produces exactly the code of the failure-free run
+  (!r.strictRetry || (r.errOk && r.out == r.clean))
 
 end AsmjitVerif.Fault
